@@ -15,6 +15,9 @@ sys.path.insert(0, os.path.join(VERIF, "tools"))
 sys.path.insert(0, HERE)
 
 
+_IMPORTED: dict = {}
+
+
 def _transform(root: str, mode: str) -> int:
     import alpha_rename
     import stress_refactor
@@ -46,6 +49,8 @@ def _transform(root: str, mode: str) -> int:
                 tree = stress_refactor.UnElse().visit(tree)
             elif mode == "unpack":
                 tree = stress_refactor.Unpack().visit(tree)
+            elif mode == "paramren":
+                tree = stress_refactor.ParamRename(tree, _IMPORTED.get(root) or _IMPORTED.setdefault(root, stress_refactor._imported_private_names(os.path.join(root, "piquasso")))).visit(tree)
             out = ast.unparse(ast.fix_missing_locations(tree))
             compile(out, p, "exec")
             open(p, "w").write(out)
@@ -53,7 +58,7 @@ def _transform(root: str, mode: str) -> int:
     return n
 
 
-def run_stress(prop: str, repo: str, modes=("alpha", "nest", "retvar", "shuffle", "invert", "kw", "mulswap", "argtemp", "unelse", "unpack")):
+def run_stress(prop: str, repo: str, modes=("alpha", "nest", "retvar", "shuffle", "invert", "kw", "mulswap", "argtemp", "unelse", "unpack", "paramren")):
     from run import COPY  # noqa: F401
     results = []
     base = subprocess.run([os.path.join(VERIF, "check"), prop, "--repo", repo, "--no-evidence", "--replay-dir", tempfile.mkdtemp(prefix="pq-r-")],
